@@ -1,0 +1,54 @@
+//! Verification hooks: a process-global event sink.
+//!
+//! This module only exists when the `verif_hooks` feature is enabled.
+//! Library code reports an event (after a state change, while still
+//! holding the lock that protects the state) through [`emit`]; a test
+//! harness installs a sink with [`set_sink`]. Without a sink, events
+//! are dropped. The sink may block; harnesses use this to steer
+//! thread schedules.
+
+use std::sync::atomic::{AtomicU64, Ordering};
+use std::sync::{Arc, RwLock};
+
+pub struct Event<'a> {
+    /// Process-global sequence number, taken when the event is emitted.
+    pub seq: u64,
+    /// Name of the emitting thread (`"?"` if it has none).
+    pub thread: String,
+    pub kind: &'static str,
+    pub fields: &'a [(&'static str, i64)],
+    pub strs: &'a [(&'static str, String)],
+}
+
+pub type Sink = Arc<dyn Fn(&Event) + Send + Sync>;
+
+static SINK: RwLock<Option<Sink>> = RwLock::new(None);
+static SEQ: AtomicU64 = AtomicU64::new(1);
+
+/// Installs (or removes) the process-global sink.
+pub fn set_sink(sink: Option<Sink>) {
+    *SINK.write().unwrap() = sink;
+}
+
+/// Takes the next sequence number (for harness-side events).
+pub fn next_seq() -> u64 {
+    SEQ.fetch_add(1, Ordering::SeqCst)
+}
+
+pub fn emit(kind: &'static str, fields: &[(&'static str, i64)]) {
+    emit_s(kind, fields, &[]);
+}
+
+pub fn emit_s(kind: &'static str, fields: &[(&'static str, i64)], strs: &[(&'static str, String)]) {
+    let sink = SINK.read().unwrap().clone();
+    if let Some(sink) = sink {
+        let ev = Event {
+            seq: next_seq(),
+            thread: std::thread::current().name().unwrap_or("?").to_owned(),
+            kind,
+            fields,
+            strs,
+        };
+        sink(&ev);
+    }
+}
